@@ -30,32 +30,53 @@ fn main() {
         std::process::exit(2);
     }
     let kv = common::Args::parse(&args[3..]);
-    let rc = match (args[1].as_str(), args[2].as_str()) {
-        ("c01", "drive") => c01::drive(&kv),
-        ("c02", "drive") => c02::drive(&kv),
-        ("c03", "drive") => c03::drive(&kv),
-        ("c04", "drive") => c04::drive(&kv),
-        ("c05", "drive") => c05::drive(&kv),
-        ("c06", "drive") => c06::drive(&kv),
-        ("c08", "drive") => c08::drive(&kv),
-        ("c09", "drive") => c09::drive(&kv),
-        ("c18", "drive") => c18::drive(&kv),
-        ("c19", "drive") => c19::drive(&kv),
-        ("c19", "show") => c19::show(&kv),
-        ("c10", "drive") => c10::drive(&kv),
-        ("c11", "drive") => c11::drive(&kv),
-        ("c12", "drive") => c12::drive(&kv),
-        ("c12", "conc") => c12::conc(&kv),
-        ("c13", "drive") => c13::drive(&kv),
-        ("c14", "drive") => c14::drive(&kv),
-        ("c15", "drive") => c15::drive(&kv),
-        ("c16", "drive") => c16::drive(&kv),
-        ("c17", "drive") => c17::drive(&kv),
-        ("c20", "drive") => c20::drive(&kv),
+    // A panic that escapes a driver comes from the code under test (the drivers use process::exit(2)
+    // for environment problems): it is data, reported with exit code 3 and a PANIC line.
+    let module = args[1].clone();
+    let command = args[2].clone();
+    let r = std::panic::catch_unwind(std::panic::AssertUnwindSafe(|| run(&module, &command, &kv)));
+    match r {
+        Ok(rc) => std::process::exit(rc),
+        Err(e) => {
+            let msg = if let Some(s) = e.downcast_ref::<&str>() {
+                s.to_string()
+            } else if let Some(s) = e.downcast_ref::<String>() {
+                s.clone()
+            } else {
+                "panic".to_string()
+            };
+            eprintln!("PANIC {module} {command}: {msg}");
+            std::process::exit(3);
+        }
+    }
+}
+
+fn run(module: &str, command: &str, kv: &common::Args) -> i32 {
+    match (module, command) {
+        ("c01", "drive") => c01::drive(kv),
+        ("c02", "drive") => c02::drive(kv),
+        ("c03", "drive") => c03::drive(kv),
+        ("c04", "drive") => c04::drive(kv),
+        ("c05", "drive") => c05::drive(kv),
+        ("c06", "drive") => c06::drive(kv),
+        ("c08", "drive") => c08::drive(kv),
+        ("c09", "drive") => c09::drive(kv),
+        ("c18", "drive") => c18::drive(kv),
+        ("c19", "drive") => c19::drive(kv),
+        ("c19", "show") => c19::show(kv),
+        ("c10", "drive") => c10::drive(kv),
+        ("c11", "drive") => c11::drive(kv),
+        ("c12", "drive") => c12::drive(kv),
+        ("c12", "conc") => c12::conc(kv),
+        ("c13", "drive") => c13::drive(kv),
+        ("c14", "drive") => c14::drive(kv),
+        ("c15", "drive") => c15::drive(kv),
+        ("c16", "drive") => c16::drive(kv),
+        ("c17", "drive") => c17::drive(kv),
+        ("c20", "drive") => c20::drive(kv),
         (m, c) => {
             eprintln!("unknown module/command {m} {c}");
             2
         }
-    };
-    std::process::exit(rc);
+    }
 }
